@@ -506,16 +506,22 @@ impl ActorLifecycleGuard {
             return;
         }
 
+        verif_point!("cleanup:start");
         self.actor.set_status(ActorStatus::Stopping);
+        verif_point!("cleanup:after_stopping");
         self.actor.terminate();
+        verif_point!("cleanup:after_terminate");
 
         if let Some(event) = event {
             self.actor.notify_supervisor(event);
         }
+        verif_point!("cleanup:after_notify_supervisor");
 
         if let Some(supervisor) = self.actor.try_get_supervisor() {
+            verif_point!("cleanup:before_unlink");
             self.actor.unlink(supervisor);
         }
+        verif_point!("cleanup:before_stopped");
 
         self.actor.set_status(ActorStatus::Stopped);
         self.armed = false;
@@ -810,6 +816,7 @@ where
             }
         };
 
+        verif_point!("start:pre_start_done");
         // setup supervision
         if let Some(sup) = &supervisor {
             if !actor_ref.try_link(sup.clone()) {
@@ -875,6 +882,7 @@ where
             }
         }
 
+        verif_point!("loop:post_start_done");
         myself.set_status(ActorStatus::Running);
         myself.notify_supervisor_and_monitors(SupervisionEvent::ActorStarted(myself.get_cell()));
 
@@ -906,10 +914,12 @@ where
             .map_err(|err| ActorErr::Failed(get_panic_string(err)))
             .await;
 
+        verif_point!("loop:exited");
         // set status to stopping
         myself_clone.set_status(ActorStatus::Stopping);
 
         let (exit_state, exit_reason, was_killed, mut ports) = loop_done??;
+        verif_point!("loop:before_post_stop");
 
         // if we didn't exit in error mode, call `post_stop`
         if !was_killed {
@@ -958,6 +968,7 @@ where
                     Self::handle_signal(myself.clone(), signal),
                 )),
                 actor_cell::ActorPortMessage::Stop(stop_message) => {
+                    verif_point!("loop:picked_stop");
                     let exit_reason = match stop_message {
                         StopMessage::Stop => {
                             tracing::trace!("Actor {:?} stopped with no reason", myself.get_id());
@@ -974,6 +985,7 @@ where
                     Ok(ActorLoopResult::stop(exit_reason))
                 }
                 actor_cell::ActorPortMessage::Supervision(supervision) => {
+                    verif_point!("loop:picked_supervision");
                     let future = Self::handle_supervision_message(
                         myself.clone(),
                         state,
@@ -990,6 +1002,7 @@ where
                     }
                 }
                 actor_cell::ActorPortMessage::Message(MuxedMessage::Message(msg)) => {
+                    verif_point!("loop:picked_message");
                     let future = Self::handle_message(myself.clone(), state, handler, msg);
                     match ports.run_with_signal(future).await {
                         Ok(Ok(())) => Ok(ActorLoopResult::ok()),
@@ -1001,6 +1014,7 @@ where
                     }
                 }
                 actor_cell::ActorPortMessage::Message(MuxedMessage::Drain) => {
+                    verif_point!("loop:picked_drain");
                     // Drain is a stub marker that the actor should now stop, we've processed
                     // all the messages and we want the actor to die now
                     Ok(ActorLoopResult::stop(Some("Drained".to_string())))
